@@ -109,10 +109,20 @@ def run(task, reducer, *, inplace=False, frozen=False, do_not_copy=False, initia
     facts = dict(extra_facts or {})
     if h.family == "scalar":
         facts[("truthy", ("attr_spec", ".is_collection"))] = fam is not None
-    it, outs = run_helper(ctx.p, ctx.H, h, inplace=inplace, if_=if_, shape=shape, frozen=frozen,
-                          do_not_copy=do_not_copy, initializing=initializing,
-                          attr_do_not_copy=attr_do_not_copy, deepcopy_mode=deepcopy_mode,
-                          setattr_mode=setattr_mode, configure=conf, extra_facts=facts, cache=False)
+    # extra tasks (a scalar helper other than with_<attr> interpreted over a collection-typed attribute) are
+    # best effort: when one exceeds the state budget it is recorded as unexplored instead of failing the run
+    extra_task = h.family == "scalar" and fam is not None and not hid.endswith(".with_attr")     # with_<attr> is the funnel they all reach
+    from ..state import Budget
+    try:
+        it, outs = run_helper(ctx.p, ctx.H, h, inplace=inplace, if_=if_, shape=shape, frozen=frozen,
+                              do_not_copy=do_not_copy, initializing=initializing,
+                              attr_do_not_copy=attr_do_not_copy, deepcopy_mode=deepcopy_mode,
+                              setattr_mode=setattr_mode, configure=conf, extra_facts=facts, cache=False)
+    except Budget as e:
+        if not extra_task:
+            raise
+        return {"task": task, "entry": f"{hid}[{shape},{fam}{',' + kind if kind else ''}]", "paths": [], "functions": [], "call_sites": 0,
+                "unclassified": [f"UNEXPLORED (state budget): {hid}[{shape},{fam}] - {e}"]}
     paths = []
     for o in outs:
         v = o.value
